@@ -54,7 +54,11 @@ def split_reads(w):
     mapped_b = [r for r in B if not r.get("unmapped") and not r.get("secondary")]
     G = [dict(r) for r in A] + [dict(r) for r in mapped_a[:6]]
     H = [dict(r) for r in B] + [dict(mapped_b[3])]
-    return {"A": A, "B": B, "C": [dict(r) for r in A], "E": E, "G": G, "H": H,
+    # K: reads of the LAST processed chromosome only (the first chromosome K works on is the one the previous experiment finished with)
+    K = [dict(r) for r in A if r.get("chr") == "chr2"]
+    knames = set(r["name"] for r in A if r.get("chr") != "chr2")
+    K = [r for r in K if r["name"] not in knames]
+    return {"A": A, "B": B, "C": [dict(r) for r in A], "E": E, "G": G, "H": H, "K": K,
             # D: two files with labels, F: two files without labels (technical replicas: IsoQuant groups by file name)
             "D": [A[0::2], A[1::2]], "F": [B[0::2], B[1::2]]}
 
@@ -198,12 +202,12 @@ def run(ctx):
             if n == 3 and not (set(seq) <= set("ABC") or set(seq) <= set("ADE") or set(seq) <= set("BDF") or set(seq) <= set("DEF")):
                 continue
             seqs.append(seq)
-    seqs += [("G",), ("H",), ("G", "H"), ("H", "G"), ("A", "H"), ("H", "A"), ("G", "B")]
+    seqs += [("G",), ("H",), ("G", "H"), ("H", "G"), ("A", "H"), ("H", "A"), ("G", "B"), ("K",), ("A", "K"), ("K", "A"), ("B", "K")]
     if not quick:
         seqs += [("G", "H", "A"), ("A", "G", "H"), ("G", "A", "H")]
     jobs = []
     for seq in seqs:
-        new = bool(set(seq) & set("DEFGH"))
+        new = bool(set(seq) & set("DEFGHK"))
         for threads in (1, 2):
             for syntax in ("yaml", "list"):
                 if quick and new and (threads == 2) != (syntax == "list"):
